@@ -55,7 +55,7 @@ theorem matchMain_plain (e : Eng) (hne : e.mainTbl.isEmpty = false) (hni : e.non
     have : ¬ (r.read.headD 0 ≥ 0x80) := by omega
     rw [if_neg (fun h => this h.2.2.1)]
   rw [hmc]
-  simp only [nonIncOverride, Eng.after, hni, Bool.false_and, Bool.false_eq_true, if_false, hem,
+  simp only [nonIncOverrideR, nonIncOverride, Eng.after, hni, ite_self, Bool.false_and, Bool.false_eq_true, if_false, hem,
     Bool.not_true, Bool.and_false, hasCmd]
 
 theorem lastExact_nomacro (keys : Seq) : ∀ (tbl : List (Seq × Bind)) (b : Bind), (∀ sb ∈ tbl, sb.2.isMacro = false) →
